@@ -474,7 +474,15 @@ def main_check(P, argv):
     ok_gen, gen_out = regen()
     broken = []
     if not ok_gen:
-        broken.append(("translator", "tools/extract_src.py no longer matches the source: " + gen_out[-1500:]))
+        # only the plugins whose generated file this property's theorems / extraction depend on concern this check
+        used = set(os.path.basename(f)[4:-2] for f in coq_closure([os.path.join(COQ, "Properties_%s.v" % prop), os.path.join(COQ, "Extract_%s.v" % prop)])
+                   if os.path.basename(f).startswith("Gen_"))
+        lines = [l for l in gen_out.split("\n") if l.strip()]
+        mine = [l for l in lines if not l.startswith("[plugin ") or l[8:].split("]")[0] in used]
+        if mine:
+            broken.append(("translator", "tools/extract_src.py no longer matches the source: " + "\n".join(mine)[-1500:]))
+        else:
+            log("translator plugins not used by %s report: %s" % (prop, gen_out[-500:]))
     low = prop.lower()
     ok_mk, mk_out = coq_make(["Properties_%s.vo" % prop, "Extract_%s.vo" % prop])
     thm_ok, theorems, praw = (False, [], "")
